@@ -333,13 +333,11 @@ func checkC11(c C11Case) (o Outcome) {
 			}
 			return fail(kind, aliasFinding(s.name, s.dir, r, w), "read of (type %d, session %q, key %q) returned the value written as (type %d, session %q, key %q)", r.Typ, r.Session, r.Key, w.Typ, w.Session, w.Key)
 		}
-		// listings per session, session-scoped types
-		if s.dir != "" {
+		// listings per data type and session (the resource types too: a handle that has a
+		// session set and lists templates must not come back with session data)
+		if s.dir != "" || s.name == "pg" {
 			seen := map[string]bool{}
 			for _, r := range reads {
-				if !sessioned(r.Typ) {
-					continue
-				}
 				id := fmt.Sprintf("%d/%s", r.Typ, r.Session)
 				if seen[id] {
 					continue
@@ -361,7 +359,7 @@ func checkC11(c C11Case) (o Outcome) {
 						continue
 					}
 					w := c.Writes[j]
-					if w.Typ == r.Typ && w.Session == r.Session {
+					if w.Typ == r.Typ && (w.Session == r.Session || !sessioned(r.Typ)) {
 						continue
 					}
 					// known: the session id is a plain prefix of the stored name
@@ -387,7 +385,11 @@ func checkC11(c C11Case) (o Outcome) {
 				}
 			}
 			// nothing may appear outside the store directory
-			if esc := escaped(s.sandbox, s.dir); esc != "" {
+			if esc := ""; s.dir != "" {
+				esc = escaped(s.sandbox, s.dir)
+				if esc == "" {
+					continue
+				}
 				if tolerate("F-C11-2") {
 					o.Tolerated = append(o.Tolerated, "F-C11-2")
 				} else {
